@@ -25,7 +25,7 @@ def main():
     try:
         shutil.copytree(os.path.join(repo, "cincoconfig"), os.path.join(tmp, "cincoconfig"),
                         ignore=shutil.ignore_patterns("__pycache__"))
-        r = subprocess.run(["patch", "-p1", "-s", "-i", package_part(patch)], cwd=tmp, capture_output=True, text=True)
+        r = subprocess.run(["patch", "-p1", "-s"], input=package_part(patch), cwd=tmp, capture_output=True, text=True)
         if r.returncode != 0:
             print("PATCH-FAILED", r.stdout, r.stderr)
             return 3
